@@ -12,6 +12,7 @@ Three parts (HOWTO.md):
 """
 import ctypes
 import math
+from fractions import Fraction as Fr
 
 import numpy as np
 
@@ -191,7 +192,16 @@ def base_points(rng, poly, npts):
     pts = []
     for _ in range(npts):
         r = rng.random()
-        if r < 0.30:     # level with a vertex / below-above a vertex
+        if r < 0.12:     # convex combination of two or three vertices (often inside)
+            a, b, c3 = rng.choice(poly), rng.choice(poly), rng.choice(poly)
+            u, v = rng.random(), rng.random()
+            if u + v > 1:
+                u, v = 1 - u, 1 - v
+            if rng.random() < 0.3:
+                v = 0.0
+            pts.append((a[0] + u * (b[0] - a[0]) + v * (c3[0] - a[0]),
+                        a[1] + u * (b[1] - a[1]) + v * (c3[1] - a[1])))
+        elif r < 0.36:   # level with a vertex / below-above a vertex
             pts.append((rng.choice(xs) + rng.choice([0, 0, .5, -.5, .25, -.125, rng.uniform(-1, 1)]),
                         rng.choice(ys) + rng.choice([0, 0, 0, .5, -.5, .25, -.125])))
         elif r < 0.45:   # half-lattice points
@@ -381,8 +391,8 @@ def run(ctx):
                 "around and on the extent lines, outside each side, on the boundary); each base case also in "
                 "2 of 6 variants (rotate, reverse, close, all three, translate, scale); stress cases "
                 "(0..2 vertices, NaN/inf, coordinate differences around the tolerance, other tolerances, "
-                "caller-supplied and wrong-length inside vectors); the bare kernel with arbitrary extents "
-                "and initial inside vectors; grids up to 12x12 (thorough 30x30) x polygons for "
+                "caller-supplied and wrong-length inside vectors); the bare kernel (ctypes) on the true extent "
+                "with a zero-filled vector; grids up to 12x12 (thorough 30x30) x polygons for "
                 "cells_inside_polygon. non-trivial = distinct (kind, family, variant, features, answer "
                 "classes) signature")
     ctx.trusted = cm.STD_TRUST + [
@@ -477,7 +487,7 @@ def run(ctx):
         judge_points(idx, c, out)
 
     # ---- base cases and their variants (public API)
-    nbase = ctx.scale(600, 6000)
+    nbase = ctx.scale(800, 8000)
     for _b in range(nbase):
         fam, upoly = base_polygon(rng)
         upts = base_points(rng, upoly, rng.randint(12, ctx.scale(30, 60)))
@@ -576,32 +586,30 @@ def run(ctx):
                      f"inside_len={il} npoints={len(upts)} nvertices={len(upoly)}: "
                      f"{'raised' if out is None else 'accepted'}")
 
-    # ---- the bare kernel: arbitrary extent, arbitrary initial inside vector
-    nker = ctx.scale(200, 2000)
+    # ---- the bare kernel (ctypes), in the states the wrapper can put it in: the true extent
+    # and a zero-filled inside vector (anything else is not observable through the API and
+    # is deliberately NOT compared: it could only produce false alarms)
+    nker = ctx.scale(80, 800)
     for _k in range(nker):
         fam, upoly = base_polygon(rng)
         upts = base_points(rng, upoly, 14)
-        xs = [p[0] for p in upoly]
-        ys = [p[1] for p in upoly]
-        r = rng.random()
-        if r < 0.4:    # the true extent
-            xlim, ylim = (min(xs), max(xs)), (min(ys), max(ys))
-        elif r < 0.8:  # a smaller / shifted box
-            xlim = (min(xs) + rng.choice([0, 0.5, 1.0]), max(xs) - rng.choice([0, 0.5, 1.0]))
-            ylim = (min(ys) + rng.choice([0, 0.5, 1.0]), max(ys) - rng.choice([0, 0.5, 1.0]))
-        else:          # NaN / infinite limits
-            xlim = (rng.choice([float("nan"), -float("inf"), min(xs)]), rng.choice([float("inf"), max(xs)]))
-            ylim = (min(ys), rng.choice([float("nan"), max(ys)]))
-        init = [rng.choice([0, 0, 1, 7, -3]) for _ in upts]
-        case = {"pts": upts, "poly": upoly, "atol": rng.choice([1e-8, 0.0, 0.5]),
-                "xlim": xlim, "ylim": ylim, "init": init}
+        c, off = affine(rng)
+        poly, pts = apply_affine(c, off, upoly), apply_affine(c, off, upts)
+        xs = [p[0] for p in poly]
+        ys = [p[1] for p in poly]
+        case = {"pts": pts, "poly": poly, "atol": ATOL,
+                "xlim": (min(xs), max(xs)), "ylim": (min(ys), max(ys)), "init": [0] * len(pts)}
         cm.mark({"call": "c_inside (ctypes)", "case": case})
         out = run_kernel(case)
-        add(term_kernel(case, out), {"call": "c_inside (ctypes)", "case": case, "impl": out},
-            ("kernel", fam, r < 0.4, r < 0.8, any(a != b for a, b in zip(init, out))))
+        idx = add(term_kernel(case, out), {"call": "c_inside (ctypes)", "case": case, "impl": out},
+                  ("kernel", fam, min(len(poly), 8), 0 in out, 1 in out))
+        api = run_inside({"pts": pts, "poly": poly})
+        if api != out:
+            fail(idx, "C15/points_inside_polygon/wrapper-differs-from-kernel",
+                 f"public function returns {api}, the kernel on the same data {out}")
 
     # ---- Grid.cells_inside_polygon
-    ncell = ctx.scale(110, 900)
+    ncell = ctx.scale(220, 1500)
     for _g in range(ncell):
         nrows = rng.choice([1, 2, 3, rng.randint(1, ctx.scale(12, 30))])
         ncols = rng.choice([1, 2, 3, rng.randint(1, ctx.scale(12, 30))])
@@ -620,8 +628,16 @@ def run(ctx):
         ox = xll + csz * rng.choice([0, 0, -1, 0.5, rng.uniform(-1, 1)])
         oy = yll + csz * rng.choice([0, 0, -1, 0.5, rng.uniform(-1, 1)])
         poly = [(ox + fx * x, oy + fy * y) for x, y in upoly]
+        catol = rng.choice([1e-8, 1e-8, 1e-8, 1e-3 * csz, 0.0])
+        if rng.random() < 0.25:
+            # vertex coordinates differing by about the tolerances (outside the property's
+            # quantifier, no oracle): here the answer depends on WHICH tolerance is applied,
+            # i.e. on whether cells_inside_polygon forwards its atol (Gen/ConstsC15.v)
+            catol = rng.choice([1e-3 * csz, 0.4 * csz, 1.5 * csz, 3.0 * csz])
+            poly = [(x + rng.choice([0, 1e-9, 3e-4 * csz, -3e-4 * csz, 0.3 * csz]),
+                     y + rng.choice([0, 1e-9, 3e-4 * csz, -3e-4 * csz, 0.3 * csz])) for x, y in poly]
         case = {"nrows": nrows, "ncols": ncols, "xll": xll, "yll": yll, "csz": csz, "poly": poly,
-                "atol": rng.choice([1e-8, 1e-8, 1e-3 * csz, 0.0])}
+                "atol": catol}
         cm.mark({"call": "Grid.cells_inside_polygon", "case": case})
         out = run_cells(case)
         idx = add(term_cells(case, out), {"call": "Grid.cells_inside_polygon", "case": case, "impl": out},
@@ -630,11 +646,12 @@ def run(ctx):
             if len(poly) >= 1:
                 fail(idx, "C15/cells_inside_polygon/raised", "ValueError for a non-empty polygon")
             continue
-        if not in_quantifier(poly):
+        if not in_quantifier(poly) or case["atol"] != ATOL:
+            # the property is about the tolerance 1e-8; with another atol argument the
+            # answer may legitimately depend on whether the argument is forwarded
             stats["polygons_outside_quantifier"] += 1
             continue
         # exact centres: xll + csz*(col+1/2), yll + csz*(nrows-1-row+1/2) as dyadic rationals
-        from fractions import Fraction as Fr
         cells = list(range(nrows * ncols))
         cen = [(Fr(xll) + Fr(csz) * (Fr(k % ncols) + Fr(1, 2)),
                 Fr(yll) + Fr(csz) * (Fr(nrows - 1 - k // ncols) + Fr(1, 2))) for k in cells]
